@@ -258,17 +258,18 @@ func runMixedProp(c *fw.Ctx, prop string) {
 		}
 	case "C02":
 		o.Ent.MinAccepts = uint64(minInt(int(o.Ent.MinAccepts), 2))
-		if r.Chance(12) {
-			// a genesis document may hold a raised order of an address the bank refuses to pay (a blocked
-			// module account): no transaction can raise one, so whatever BeginBlock does with it once the
-			// signers accept (on this tree: halt) it must not create coins without completing the order
-			mod := []string{"fee_collector", "distribution", "bonded_tokens_pool", "not_bonded_tokens_pool", "stream", "enterprise"}[r.Intn(6)]
-			o.GenesisPOs = append(o.GenesisPOs, enttypes.EnterpriseUndPurchaseOrder{Id: o.PoStartID, Purchaser: lab.ModAddr(mod).String(),
-				Amount: sdk.NewInt64Coin(o.Ent.Denom, int64(r.Range(1, 1_000_000))), Status: enttypes.StatusRaised, RaiseTime: uint64(lab.StartTime.Unix())})
-			o.ExtraWhitelist = append(o.ExtraWhitelist, lab.ModAddr(mod).String())
-			o.PoStartID++
-			c.Count("genesis_orders_of_blocked_module_accounts", 1)
-		}
+	}
+	if (prop == "C02" || prop == "C04" || prop == "C17") && r.Chance(12) {
+		// a genesis document may hold a raised order of an address the bank refuses to pay (a blocked
+		// module account): no transaction can raise one, so whatever BeginBlock does with it once the
+		// signers accept (on this tree: halt) it must not create coins without completing the order,
+		// and the books / the reported supply must stay right
+		mod := []string{"fee_collector", "distribution", "bonded_tokens_pool", "not_bonded_tokens_pool", "stream", "enterprise"}[r.Intn(6)]
+		o.GenesisPOs = append(o.GenesisPOs, enttypes.EnterpriseUndPurchaseOrder{Id: o.PoStartID, Purchaser: lab.ModAddr(mod).String(),
+			Amount: sdk.NewInt64Coin(o.Ent.Denom, int64(r.Range(1, 1_000_000))), Status: enttypes.StatusRaised, RaiseTime: uint64(lab.StartTime.Unix())})
+		o.ExtraWhitelist = append(o.ExtraWhitelist, lab.ModAddr(mod).String())
+		o.PoStartID++
+		c.Count("genesis_orders_of_blocked_module_accounts", 1)
 	}
 	if prop == "C02" && c.Case%4 == 0 {
 		c02GenesisProbes(c, o)
@@ -320,6 +321,9 @@ func runMixedProp(c *fw.Ctx, prop string) {
 	case "C17":
 		e.Monitors = append(e.Monitors, NewSupplyQueriesMonitor(e), stat)
 	}
+	if prop == "C04" && r.Chance(25) {
+		govPurchaser(e, g)
+	}
 	RunMixed(e, g, w, r.Range(40, 60))
 	noteHalt(e)
 	c.Count("txs", int64(e.NTx))
@@ -328,6 +332,41 @@ func runMixedProp(c *fw.Ctx, prop string) {
 	}
 	if c.Case < 2 {
 		c.Sample(map[string]interface{}{"genesis": fmt.Sprintf("ent=%v kinds=%v whitelist=%v", o.Ent, o.Kinds, o.Whitelist), "trace_tail": e.TraceTail(30)})
+	}
+}
+
+// govPurchaser: the one module account that can act at all (through proposals) buys eFUND - it is
+// whitelisted by a signer, the order is raised by a governance proposal naming the gov account as
+// purchaser, and a signer accepts it. Its books must add up like anybody's.
+func govPurchaser(e *Env, g *Gen) {
+	e.Block(time.Second)
+	if e.Halted != "" || e.Last == nil {
+		return
+	}
+	var s *lab.Acct
+	for i := range e.L.Accts {
+		if isSigner(e.Last, e.L.Accts[i]) {
+			s = &e.L.Accts[i]
+			break
+		}
+	}
+	if s == nil {
+		return
+	}
+	gov := lab.GovAuthority()
+	e.Block(time.Second, &TxPlan{Spec: lab.TxSpec{Msgs: []sdk.Msg{&enttypes.MsgWhitelistAddress{Address: gov, Signer: s.Addr.String(), Action: enttypes.WhitelistActionAdd}}, Signers: []lab.Acct{*s}, Gas: 1_000_000}, Desc: "whitelist the gov module account"})
+	known := map[uint64]bool{}
+	for _, id := range e.Last.RaisedQ {
+		known[id] = true
+	}
+	if !e.Gov("the gov module account raises a purchase order for itself", &enttypes.MsgUndPurchaseOrder{Purchaser: gov, Amount: sdk.NewInt64Coin(e.Last.EntParams.Denom, int64(e.R.Range(1000, 5_000_000)))}) {
+		return
+	}
+	for _, id := range e.Last.RaisedQ {
+		if !known[id] && ownerHex(findPO(e.Last, id).Purchaser) == ownerHex(gov) {
+			e.Block(time.Second, &TxPlan{Spec: lab.TxSpec{Msgs: []sdk.Msg{&enttypes.MsgProcessUndPurchaseOrder{PurchaseOrderId: id, Decision: enttypes.StatusAccepted, Signer: s.Addr.String()}}, Signers: []lab.Acct{*s}, Gas: 1_000_000}, Desc: fmt.Sprintf("accept the gov account's order %d", id)})
+			e.C.Count("gov_purchaser_orders", 1)
+		}
 	}
 }
 
